@@ -152,122 +152,260 @@ class TableRefs(ast.NodeVisitor):
 # ----------------------------------------------------------------------------------------------
 # __torch_function__  ->  tf_prog
 
-def tr_argref(a):
-    """call argument -> Gallina argref"""
-    def is_args_sub(e):
-        return isinstance(e, ast.Subscript) and isinstance(e.value, ast.Name) and e.value.id == "args"
-    if isinstance(a, ast.Starred):
-        v = a.value
-        if isinstance(v, ast.Name) and v.id == "args":
-            return "(RRest 0)"
-        if is_args_sub(v) and isinstance(v.slice, ast.Slice) and v.slice.upper is None and v.slice.step is None \
-                and isinstance(v.slice.lower, ast.Constant) and isinstance(v.slice.lower.value, int) and v.slice.lower.value >= 0:
-            return "(RRest %d)" % v.slice.lower.value
-        raise Untranslatable("starred call argument: %s" % ast.dump(a)[:100])
-    if is_args_sub(a) and isinstance(a.slice, ast.Constant) and isinstance(a.slice.value, int) and a.slice.value >= 0:
-        return "(RArg %d)" % a.slice.value
-    raise Untranslatable("call argument: %s" % ast.dump(a)[:100])
+class _TfPath:
+    """one execution of the body of __torch_function__ under the assumption isinstance(args[i], cls) == inst"""
 
+    def __init__(self, inst):
+        self.inst = inst
+        self.test_arg = None
+        self.member = None           # table of the `func not in TABLE` guard
+        self.types_check = False
+        self.result = None           # (lookup table, [argref], kwargs flag)
+        # symbolic values:  ("args", [caller indices], rest index | None)   the tuple  (args[i] for i in prefix) + args[rest:]
+        #                   ("arg", i) | ("table", T) | ("mname", T) | ("method", T) | ("bool", b) | ("guard", [atoms])
+        #                   ("func",) | ("cls",) | ("kwargs",) | ("types",) | ("none",)
+        self.env = {"cls": ("cls",), "func": ("func",), "types": ("types",), "args": ("args", [], 0), "kwargs": ("kwargs",)}
 
-def tr_branch(stmts):
-    """[if func not in T or not all(issubclass(t,(torch.Tensor, LinearOperator)) for t in types): ...raise NotImplementedError
-        func = getattr(cls, T2[func]);  return func(<args>, **kwargs)]"""
-    if len(stmts) != 3:
-        raise Untranslatable("__torch_function__ branch has %d statements (expected guard, getattr, call)" % len(stmts))
-    g, asg, ret = stmts
-    if not isinstance(g, ast.If) or g.orelse:
-        raise Untranslatable("branch guard shape")
-    test = g.test
-    member, types_check = None, False
-    parts = test.values if (isinstance(test, ast.BoolOp) and isinstance(test.op, ast.Or)) else [test]
-    for p in parts:
-        if isinstance(p, ast.Compare) and len(p.ops) == 1 and isinstance(p.ops[0], ast.NotIn) and isinstance(p.left, ast.Name) \
-                and p.left.id == "func" and isinstance(p.comparators[0], ast.Name) and p.comparators[0].id in TABLES:
-            if member is not None:
-                raise Untranslatable("two membership tests")
-            member = TABLES[p.comparators[0].id]
-        elif isinstance(p, ast.UnaryOp) and isinstance(p.op, ast.Not) and isinstance(p.operand, ast.Call) \
-                and isinstance(p.operand.func, ast.Name) and p.operand.func.id == "all" and len(p.operand.args) == 1 \
-                and isinstance(p.operand.args[0], ast.GeneratorExp):
-            ge = p.operand.args[0]
-            if len(ge.generators) != 1 or ge.generators[0].ifs or not (isinstance(ge.generators[0].iter, ast.Name) and ge.generators[0].iter.id == "types"):
-                raise Untranslatable("types test generator")
-            var = ge.generators[0].target
-            c = ge.elt
-            if not (isinstance(c, ast.Call) and isinstance(c.func, ast.Name) and c.func.id == "issubclass" and len(c.args) == 2
-                    and isinstance(c.args[0], ast.Name) and isinstance(var, ast.Name) and c.args[0].id == var.id
-                    and isinstance(c.args[1], ast.Tuple)
-                    and sorted(dotted(x) for x in c.args[1].elts) == ["LinearOperator", "torch.Tensor"]):
-                raise Untranslatable("types test is not issubclass(t, (torch.Tensor, LinearOperator))")
-            types_check = True
-        else:
-            raise Untranslatable("unknown guard disjunct: %s" % ast.dump(p)[:120])
-    if member is None:
-        raise Untranslatable("branch without `func not in TABLE` test")
-    # guard body: only string building, ending in raise NotImplementedError
-    for st in g.body[:-1]:
-        if not (isinstance(st, ast.Assign) and len(st.targets) == 1 and isinstance(st.targets[0], ast.Name)
-                and st.targets[0].id not in ("func", "args", "kwargs", "cls", "types")):
-            raise Untranslatable("statement in raising block: %s" % ast.dump(st)[:100])
-    r = g.body[-1]
-    exc = r.exc.func if isinstance(r, ast.Raise) and isinstance(r.exc, ast.Call) else (r.exc if isinstance(r, ast.Raise) else None)
-    if not (isinstance(exc, ast.Name) and exc.id == "NotImplementedError"):
-        raise Untranslatable("guard does not raise NotImplementedError")
-    # func = getattr(cls, T2[func])
-    ok = (isinstance(asg, ast.Assign) and len(asg.targets) == 1 and isinstance(asg.targets[0], ast.Name) and asg.targets[0].id == "func"
-          and isinstance(asg.value, ast.Call) and isinstance(asg.value.func, ast.Name) and asg.value.func.id == "getattr"
-          and len(asg.value.args) == 2 and isinstance(asg.value.args[0], ast.Name) and asg.value.args[0].id == "cls"
-          and isinstance(asg.value.args[1], ast.Subscript) and isinstance(asg.value.args[1].value, ast.Name)
-          and asg.value.args[1].value.id in TABLES and isinstance(asg.value.args[1].slice, ast.Name)
-          and asg.value.args[1].slice.id == "func")
-    if not ok:
-        raise Untranslatable("lookup is not func = getattr(cls, TABLE[func])")
-    lookup = TABLES[asg.value.args[1].value.id]
-    ok = (isinstance(ret, ast.Return) and isinstance(ret.value, ast.Call) and isinstance(ret.value.func, ast.Name) and ret.value.func.id == "func")
-    if not ok:
-        raise Untranslatable("branch does not end with return func(...)")
-    call = [tr_argref(a) for a in ret.value.args]
-    kw = False
-    for k in ret.value.keywords:
-        if k.arg is None and isinstance(k.value, ast.Name) and k.value.id == "kwargs":
-            kw = True
-        else:
-            raise Untranslatable("keyword in final call")
-    return "{| b_member := %s; b_types_check := %s; b_lookup := %s; b_call := %s; b_kwargs := %s |}" % (
-        member, "true" if types_check else "false", lookup, clist(call), "true" if kw else "false")
+    # -- expressions
+    def ev(self, e):
+        if isinstance(e, ast.Name):
+            if e.id in TABLES:
+                return ("table", TABLES[e.id])
+            if e.id not in self.env:
+                raise Untranslatable("__torch_function__: unbound name %s" % e.id)
+            return self.env[e.id]
+        if isinstance(e, ast.Constant) and e.value is None:
+            return ("none",)
+        if isinstance(e, ast.Dict) and not e.keys:
+            return ("emptydict",)
+        if isinstance(e, ast.Tuple) or isinstance(e, ast.List):
+            prefix, rest = [], None
+            for x in e.elts:
+                if rest is not None:
+                    raise Untranslatable("__torch_function__: element after *args[k:]")
+                if isinstance(x, ast.Starred):
+                    v = self.ev(x.value)
+                    if v[0] != "args":
+                        raise Untranslatable("__torch_function__: starred element is not an argument tuple")
+                    prefix, rest = prefix + v[1], v[2]
+                else:
+                    v = self.ev(x)
+                    if v[0] != "arg":
+                        raise Untranslatable("__torch_function__: tuple element is not one of the caller's arguments")
+                    prefix.append(v[1])
+            return ("args", prefix, rest)
+        if isinstance(e, ast.Subscript):
+            v = self.ev(e.value)
+            if v[0] == "table":
+                k = self.ev(e.slice)
+                if k != ("func",):
+                    raise Untranslatable("__torch_function__: table indexed by something else than func")
+                if self.member is None:
+                    raise Untranslatable("__torch_function__: TABLE[func] evaluated before the membership test")
+                return ("mname", v[1])
+            if v[0] == "args":
+                prefix, rest = v[1], v[2]
+                sl = e.slice
+                cint = lambda x: isinstance(x, ast.Constant) and isinstance(x.value, int) and not isinstance(x.value, bool) and x.value >= 0
+                if cint(sl):
+                    i = sl.value
+                    if i < len(prefix):
+                        return ("arg", prefix[i])
+                    if rest is None:
+                        raise Untranslatable("__torch_function__: index %d outside a %d-tuple" % (i, len(prefix)))
+                    return ("arg", rest + i - len(prefix))
+                if isinstance(sl, ast.Slice) and sl.step is None and (sl.lower is None or cint(sl.lower)) and (sl.upper is None or cint(sl.upper)):
+                    lo = sl.lower.value if sl.lower is not None else 0
+                    if sl.upper is None:
+                        if lo <= len(prefix):
+                            return ("args", prefix[lo:], rest)
+                        if rest is None:
+                            return ("args", [], None)
+                        return ("args", [], rest + lo - len(prefix))
+                    hi = sl.upper.value
+                    if hi < lo:
+                        raise Untranslatable("__torch_function__: empty slice")
+                    # a bounded slice of the caller's arguments: modelled as exactly hi-lo arguments (a shorter
+                    # argument list raises in the model -- IndexError -- and in python when it is unpacked)
+                    full = list(prefix)
+                    if hi > len(full):
+                        if rest is None:
+                            raise Untranslatable("__torch_function__: slice beyond a fixed tuple")
+                        full += [rest + k for k in range(hi - len(full))]
+                    return ("args", full[lo:hi], None)
+            raise Untranslatable("__torch_function__: subscript %s" % ast.dump(e)[:100])
+        if isinstance(e, ast.BinOp) and isinstance(e.op, ast.Add):
+            l, r = self.ev(e.left), self.ev(e.right)
+            if l[0] == "args" and r[0] == "args" and l[2] is None:
+                return ("args", l[1] + r[1], r[2])
+            raise Untranslatable("__torch_function__: + of %s and %s" % (l[0], r[0]))
+        if isinstance(e, ast.UnaryOp) and isinstance(e.op, ast.Not):
+            v = self.ev(e.operand)
+            if v[0] == "bool":
+                return ("bool", not v[1])
+            if v[0] == "guardpos":          # not (func in T) / not all(...)
+                return ("guard", v[1])
+            raise Untranslatable("__torch_function__: not %s" % v[0])
+        if isinstance(e, ast.BoolOp) and isinstance(e.op, ast.Or):
+            vs = [self.ev(x) for x in e.values]
+            if vs[0] == ("kwargs",) and len(vs) == 2 and vs[1] == ("emptydict",):
+                return ("kwargs",)
+            if all(v[0] == "guard" for v in vs):
+                return ("guard", [a for v in vs for a in v[1]])
+            raise Untranslatable("__torch_function__: `or` of %s" % [v[0] for v in vs])
+        if isinstance(e, ast.Compare) and len(e.ops) == 1:
+            l, r = self.ev(e.left), self.ev(e.comparators[0])
+            if l == ("func",) and r[0] == "table" and isinstance(e.ops[0], (ast.In, ast.NotIn)):
+                return ("guard" if isinstance(e.ops[0], ast.NotIn) else "guardpos", [("member", r[1])])
+            if l == ("kwargs",) and r == ("none",) and isinstance(e.ops[0], ast.Is):
+                return ("kwargs_is_none",)
+            raise Untranslatable("__torch_function__: comparison %s" % ast.dump(e)[:100])
+        if isinstance(e, ast.IfExp):
+            c = self.ev(e.test)
+            if c[0] != "bool":
+                raise Untranslatable("__torch_function__: conditional expression on %s" % c[0])
+            return self.ev(e.body if c[1] else e.orelse)
+        if isinstance(e, ast.Call) and isinstance(e.func, ast.Name) and e.func.id not in self.env:
+            fn, a = e.func.id, e.args
+            if fn == "isinstance" and len(a) == 2 and not e.keywords:
+                x, k = self.ev(a[0]), self.ev(a[1])
+                if x[0] == "arg" and k == ("cls",):
+                    if self.test_arg not in (None, x[1]):
+                        raise Untranslatable("__torch_function__ tests isinstance(., cls) on two different arguments")
+                    self.test_arg = x[1]
+                    return ("bool", self.inst)
+                raise Untranslatable("__torch_function__: isinstance(%s, %s)" % (x[0], k[0]))
+            if fn in ("tuple", "list") and len(a) == 1 and not e.keywords:
+                v = self.ev(a[0])
+                if v[0] == "args":
+                    return v
+                raise Untranslatable("__torch_function__: %s(%s)" % (fn, v[0]))
+            if fn == "getattr" and len(a) == 2 and not e.keywords:
+                c, m = self.ev(a[0]), self.ev(a[1])
+                if c == ("cls",) and m[0] == "mname":
+                    return ("method", m[1])
+                raise Untranslatable("lookup is not getattr(cls, TABLE[func])")
+            if fn == "all" and len(a) == 1 and not e.keywords and isinstance(a[0], ast.GeneratorExp):
+                ge = a[0]
+                if len(ge.generators) != 1 or ge.generators[0].ifs or self.ev(ge.generators[0].iter) != ("types",):
+                    raise Untranslatable("types test generator")
+                var, c = ge.generators[0].target, ge.elt
+                if not (isinstance(c, ast.Call) and isinstance(c.func, ast.Name) and c.func.id == "issubclass" and len(c.args) == 2
+                        and isinstance(c.args[0], ast.Name) and isinstance(var, ast.Name) and c.args[0].id == var.id
+                        and isinstance(c.args[1], ast.Tuple)
+                        and sorted(dotted(x) for x in c.args[1].elts) == ["LinearOperator", "torch.Tensor"]):
+                    raise Untranslatable("types test is not issubclass(t, (torch.Tensor, LinearOperator))")
+                return ("guardpos", [("types",)])
+        raise Untranslatable("__torch_function__: expression %s" % ast.dump(e)[:120])
+
+    # -- statements
+    def raising_block(self, body):
+        """only string building, ending in raise NotImplementedError"""
+        if not body:
+            raise Untranslatable("empty guard body")
+        for st in body[:-1]:
+            if not (isinstance(st, ast.Assign) and len(st.targets) == 1 and isinstance(st.targets[0], ast.Name)
+                    and st.targets[0].id not in self.env):
+                raise Untranslatable("statement in raising block: %s" % ast.dump(st)[:100])
+        r = body[-1]
+        exc = r.exc.func if isinstance(r, ast.Raise) and isinstance(r.exc, ast.Call) else (r.exc if isinstance(r, ast.Raise) else None)
+        if not (isinstance(exc, ast.Name) and exc.id == "NotImplementedError"):
+            raise Untranslatable("guard does not raise NotImplementedError")
+
+    def run(self, body):
+        """executes statements until the final call; every statement outside the recognised forms is rejected"""
+        for k, st in enumerate(body):
+            if self.result is not None:
+                return               # this path has returned: the remaining statements are dead code on it
+            if isinstance(st, ast.Assign) and len(st.targets) == 1:
+                tgt = st.targets[0]
+                v = self.ev(st.value)
+                if isinstance(tgt, ast.Name):
+                    if tgt.id in ("cls", "types") or tgt.id in TABLES:
+                        raise Untranslatable("__torch_function__ assigns %s" % tgt.id)
+                    if v[0] in ("guard", "guardpos", "kwargs_is_none", "emptydict", "none"):
+                        raise Untranslatable("__torch_function__: %s stored in a variable" % v[0])
+                    self.env[tgt.id] = v
+                elif isinstance(tgt, ast.Tuple) and all(isinstance(x, ast.Name) for x in tgt.elts):
+                    if v[0] != "args" or v[2] is not None or len(v[1]) != len(tgt.elts):
+                        raise Untranslatable("__torch_function__: tuple unpacking of %s" % (v,))
+                    for x, i in zip(tgt.elts, v[1]):
+                        if x.id in ("cls", "types", "func", "args", "kwargs"):
+                            raise Untranslatable("__torch_function__ assigns %s" % x.id)
+                        self.env[x.id] = ("arg", i)
+                else:
+                    raise Untranslatable("__torch_function__: assignment target")
+            elif isinstance(st, ast.If):
+                c = self.ev(st.test)
+                if c == ("kwargs_is_none",):
+                    ok = (len(st.body) == 1 and isinstance(st.body[0], ast.Assign) and len(st.body[0].targets) == 1
+                          and isinstance(st.body[0].targets[0], ast.Name) and st.body[0].targets[0].id == "kwargs"
+                          and isinstance(st.body[0].value, ast.Dict) and not st.body[0].value.keys and not st.orelse)
+                    if not ok or self.env.get("kwargs") != ("kwargs",):
+                        raise Untranslatable("kwargs default")
+                elif c[0] == "bool":
+                    self.run(st.body if c[1] else st.orelse)
+                elif c[0] == "guard":
+                    self.raising_block(st.body)
+                    for a in c[1]:
+                        if a[0] == "member":
+                            if self.member is not None:
+                                raise Untranslatable("two membership tests")
+                            self.member = a[1]
+                        else:
+                            self.types_check = True
+                    if self.env.get("func") != ("func",):
+                        raise Untranslatable("membership test after func was re-bound")
+                    if st.orelse:
+                        self.run(st.orelse)
+                else:
+                    raise Untranslatable("__torch_function__: if on %s" % c[0])
+            elif isinstance(st, ast.Return) and isinstance(st.value, ast.Call):
+                call = st.value
+                f = self.ev(call.func)
+                if f[0] != "method":
+                    raise Untranslatable("branch does not end with a call of getattr(cls, TABLE[func])")
+                av = self.ev(ast.Tuple(elts=call.args, ctx=ast.Load()))
+                refs = ["(RArg %d)" % i for i in av[1]] + (["(RRest %d)" % av[2]] if av[2] is not None else [])
+                kw = False
+                for kx in call.keywords:
+                    if kx.arg is None and self.ev(kx.value) == ("kwargs",):
+                        kw = True
+                    else:
+                        raise Untranslatable("keyword in final call")
+                self.result = (f[1], refs, kw)
+            else:
+                raise Untranslatable("__torch_function__: statement %s" % ast.dump(st)[:120])
+
+    def branch(self):
+        if self.result is None:
+            raise Untranslatable("__torch_function__: a path does not end in return func(...)")
+        if self.member is None:
+            raise Untranslatable("branch without `func not in TABLE` test")
+        lookup, refs, kw = self.result
+        return "{| b_member := %s; b_types_check := %s; b_lookup := %s; b_call := %s; b_kwargs := %s |}" % (
+            self.member, "true" if self.types_check else "false", lookup, clist(refs), "true" if kw else "false")
 
 
 def tr_torch_function(fn):
+    """__torch_function__ -> tf_prog by a small symbolic execution of its body, once under the assumption that
+    isinstance(args[i], cls) holds and once that it does not (so the handler may be written as one if/else with two
+    copies of the code, or with a selected table / re-built argument tuple / conditional expressions; everything outside
+    the recognised statement and expression forms is rejected)"""
     if not any(isinstance(d, ast.Name) and d.id == "classmethod" for d in fn.decorator_list) or len(fn.decorator_list) != 1:
         raise Untranslatable("__torch_function__ must be a plain classmethod")
-    if [a.arg for a in fn.args.args] != ["cls", "func", "types", "args", "kwargs"]:
+    if [a.arg for a in fn.args.args] != ["cls", "func", "types", "args", "kwargs"] or fn.args.vararg or fn.args.kwarg or fn.args.kwonlyargs:
         raise Untranslatable("__torch_function__ signature")
     body = strip_doc(fn.body)
-    # optional: if kwargs is None: kwargs = {}
-    if body and isinstance(body[0], ast.If) and isinstance(body[0].test, ast.Compare) and isinstance(body[0].test.left, ast.Name) \
-            and body[0].test.left.id == "kwargs" and isinstance(body[0].test.ops[0], ast.Is):
-        st = body[0]
-        if not (len(st.body) == 1 and isinstance(st.body[0], ast.Assign) and isinstance(st.body[0].value, ast.Dict) and not st.body[0].value.keys
-                and not st.orelse):
-            raise Untranslatable("kwargs default")
-        body = body[1:]
-    if len(body) != 1 or not isinstance(body[0], ast.If) or not body[0].orelse:
-        raise Untranslatable("__torch_function__ is not a single if/else on isinstance(args[i], cls)")
-    top = body[0]
-    t = top.test
-    neg = False
-    if isinstance(t, ast.UnaryOp) and isinstance(t.op, ast.Not):
-        neg, t = True, t.operand
-    ok = (isinstance(t, ast.Call) and isinstance(t.func, ast.Name) and t.func.id == "isinstance" and len(t.args) == 2
-          and isinstance(t.args[0], ast.Subscript) and isinstance(t.args[0].value, ast.Name) and t.args[0].value.id == "args"
-          and isinstance(t.args[0].slice, ast.Constant) and isinstance(t.args[0].slice.value, int) and t.args[0].slice.value >= 0
-          and isinstance(t.args[1], ast.Name) and t.args[1].id == "cls")
-    if not ok:
-        raise Untranslatable("top test is not [not] isinstance(args[i], cls)")
-    idx = t.args[0].slice.value
-    b_true, b_false = tr_branch(top.body), tr_branch(top.orelse)
-    inst, other = (b_false, b_true) if neg else (b_true, b_false)
-    return "{| tf_test_arg := %d; tf_inst := %s;\n     tf_other := %s |}" % (idx, inst, other)
+    paths = []
+    for inst in (True, False):
+        p = _TfPath(inst)
+        p.run(body)
+        paths.append(p)
+    idx = {p.test_arg for p in paths}
+    if len(idx) != 1 or None in idx:
+        raise Untranslatable("__torch_function__ does not test isinstance(args[i], cls) on every path")
+    return "{| tf_test_arg := %d; tf_inst := %s;\n     tf_other := %s |}" % (idx.pop(), paths[0].branch(), paths[1].branch())
 
 
 # ----------------------------------------------------------------------------------------------
@@ -289,6 +427,10 @@ class BodyTr:
         self.defaults = {}
         for p, d in zip(self.params[len(self.params) - nd:], a.defaults):
             self.defaults[p] = d
+        # local variables are eliminated by substitution (every expression of the language is pure):
+        # name -> translated ex / translated cond, as of the point of the assignment
+        self.env = {}
+        self.cenv = {}
 
     def num(self, e):
         if isinstance(e, ast.Constant) and isinstance(e.value, (int, float)) and not isinstance(e.value, bool):
@@ -307,6 +449,8 @@ class BodyTr:
         except Untranslatable:
             pass
         if isinstance(e, ast.Name):
+            if e.id in self.env:
+                return self.env[e.id]
             if e.id == "self":
                 return "ESelf"
             if e.id in self.params:
@@ -335,6 +479,13 @@ class BodyTr:
         return clist(out)
 
     def cond(self, t):
+        if isinstance(t, ast.Name) and t.id in self.cenv:
+            return self.cenv[t.id]
+        if isinstance(t, ast.UnaryOp) and isinstance(t.op, ast.Not):
+            return "(CNot %s)" % self.cond(t.operand)
+        for n in ast.walk(t):
+            if isinstance(n, ast.Name) and n.id in self.env:
+                raise Untranslatable("%s: condition on the re-assigned name %s" % (self.fn.name, n.id))
         # alpha is None
         if isinstance(t, ast.Compare) and len(t.ops) == 1 and isinstance(t.left, ast.Name) and t.left.id in self.params \
                 and isinstance(t.comparators[0], ast.Constant) and t.comparators[0].value is None:
@@ -361,7 +512,26 @@ class BodyTr:
         if isinstance(s, ast.Return):
             if s.value is None:
                 raise Untranslatable("%s: bare return" % self.fn.name)
+            if isinstance(s.value, ast.IfExp):
+                v = s.value
+                return "(SIf %s %s %s)" % (self.cond(v.test), self.stmts([ast.Return(value=v.body)]), self.stmts([ast.Return(value=v.orelse)]))
             return "(SReturn %s)" % self.ex(s.value)
+        if isinstance(s, ast.Assign) and len(s.targets) == 1 and isinstance(s.targets[0], ast.Name) and s.targets[0].id != "self":
+            nm = s.targets[0].id
+            saved = (dict(self.env), dict(self.cenv))
+            try:
+                try:
+                    c = self.cond(s.value)
+                    self.cenv[nm] = c
+                    self.env.pop(nm, None)
+                    if nm in self.params:
+                        raise Untranslatable("%s: parameter %s re-bound to a condition" % (self.fn.name, nm))
+                except Untranslatable:
+                    self.env[nm] = self.ex(s.value)
+                    self.cenv.pop(nm, None)
+                return self.stmts(rest)
+            finally:
+                self.env, self.cenv = saved
         if isinstance(s, ast.Raise):
             e = s.exc.func if isinstance(s.exc, ast.Call) else s.exc
             if not isinstance(e, ast.Name):
@@ -369,6 +539,7 @@ class BodyTr:
             return "(SRaise %s)" % cstr(e.id)
         if isinstance(s, ast.If):
             c = self.cond(s.test)
+            # (assignments made inside a branch are undone when its translation returns: see Assign above)
             th = self.stmts(s.body + ([] if self.ends(s.body) else rest))
             el = self.stmts((s.orelse if s.orelse else []) + ([] if (s.orelse and self.ends(s.orelse)) else rest))
             return "(SIf %s %s %s)" % (c, th, el)
@@ -732,6 +903,105 @@ def translate(repo, extra_classes=()):
         "body_methods": BODY_METHODS,
     })
     return "\n".join(out), meta
+
+
+# ----------------------------------------------------------------------------------------------
+# introspection only (no AST): what the failing-input search uses when the source cannot be translated
+
+def torch_function_names():
+    """function object id -> dotted torch name, for every overridable function (and the names the property uses)"""
+    import torch
+    import torch.overrides as TO
+    names = {}
+
+    def walk(name):
+        obj = torch
+        for p in name.split(".")[1:]:
+            obj = getattr(obj, p, None)
+            if obj is None:
+                return None
+        return obj
+    for ns, fs in TO.get_overridable_functions().items():
+        for f in fs:
+            try:
+                nm = TO.resolve_name(f)
+            except Exception:          # noqa
+                nm = None
+            cands = [nm] if nm else []
+            base = getattr(f, "__name__", None)
+            if base:
+                cands += [pre + base for pre in ("torch.", "torch.linalg.", "torch.Tensor.", "torch.special.", "torch.fft.", "torch.nn.functional.")]
+                cands += ["torch.linalg." + base.replace("linalg_", "")]
+            for c in cands:
+                if c and c.startswith("torch.") and '"' not in c and walk(c) is f:
+                    names.setdefault(id(f), (c, f))
+                    break
+    return names
+
+
+def runtime_tables(L):
+    """the two registration tables of the imported module as {dotted name: method name}; found by their names, else
+    by shape (module-level dicts from callables to strings).  Returns (first, second, notes) or None."""
+    notes = []
+    cand = {}
+    for nm in TABLES:
+        v = getattr(L, nm, None)
+        if isinstance(v, dict):
+            cand[TABLES[nm]] = v
+    if len(cand) < 2:
+        for nm, v in sorted(vars(L).items()):
+            if isinstance(v, dict) and v and all(callable(k) for k in v) and all(isinstance(x, str) for x in v.values()):
+                which = "Second" if ("SECOND" in nm.upper() or "REVERSE" in nm.upper()) else "First"
+                if which not in cand:
+                    cand[which] = v
+                    notes.append("table %s found under the name %s" % (which, nm))
+    if "First" not in cand:
+        return None
+    names = torch_function_names()
+    out = []
+    for which in ("First", "Second"):
+        tab = {}
+        for f, m in cand.get(which, {}).items():
+            if id(f) in names and isinstance(m, str):
+                tab[names[id(f)][0]] = m
+            else:
+                notes.append("%s table: entry %r -> %r has no resolvable torch name" % (which, getattr(f, "__name__", f), m))
+        out.append(tab)
+    return out[0], out[1], notes
+
+
+def introspect(repo, extra_classes=(), last_good=None):
+    """the part of `translate`'s meta the correspondence harness needs, from the imported package only"""
+    lo, O = import_package(repo)
+    L = importlib.import_module("linear_operator.operators._linear_operator")
+    rt = runtime_tables(L)
+    notes = []
+    if rt is None:
+        if not last_good:
+            raise Untranslatable("registration tables not found in the imported module and no earlier tables available")
+        first, second = dict(last_good["first"]), dict(last_good["second"])
+        notes.append("tables taken from the last successful translation")
+    else:
+        first, second, notes = rt
+    root_cls = L.LinearOperator
+    lib = [c for c in all_subclasses(root_cls) if c.__module__.startswith("linear_operator.")]
+    lib += [c for c in extra_classes if c not in lib]
+    helper = []
+    mro_names = {}
+    for c in lib:
+        mro = [k for k in c.__mro__ if k is not object]
+        for k in mro:
+            if k not in lib and k not in helper:
+                helper.append(k)
+        mro_names[c.__name__] = [k.__name__ for k in mro]
+    relevant = sorted(set(first.values()) | set(second.values()) | set(DUNDERS) | set(SPECIAL) | set(BODY_METHODS) | set(PRIMITIVE)
+                      | set(OPTIONAL_BODY_METHODS))
+    defines = {}
+    for c in lib + helper:
+        defines[c.__name__] = [[nm, "MFun" if callable(c.__dict__[nm]) else "MOther"] for nm in relevant if nm in c.__dict__]
+    return {"repo": repo, "first": first, "second": second, "classes": {c.__name__: mro_names[c.__name__] for c in lib},
+            "helpers": [c.__name__ for c in helper], "extra": [c.__name__ for c in extra_classes], "relevant": relevant,
+            "defines": defines, "introspected": True, "notes": notes}
 
 
 if __name__ == "__main__":
